@@ -69,6 +69,11 @@ TABLE = {
             'unknown id, foreign non-empty from) no completion or erase is reachable and false is returned; requests need a valid unused id and an addressee; destructor, non-resumed session open and non-resumable close cancel everything; '
             'every function/lambda holding a promise finishes it once or hands it on on all paths (85 holders; zero-iteration loops checked; found and fixed the MAM empty-page hang).',
             'Interleavings of several outstanding requests with reconnects, completion order, and that a remote entity ever replies are history-level and not decided; latch arithmetic is trusted; negotiation-internal promises are left to C10.', 'DESIGN.md §2 C07'),
+    'C08': ('exhaustive path exploration of all 17 handleStanza overrides per IQ type with reply counting through same-file helpers, continuations and the verified typed-helper summary; fall-back and helper contracts checked separately',
+            'Static, decided at path level for the code in /repo/src/client: for each extension and each IQ type (get/set/result/error) every path that claims the stanza must have sent exactly one result/error IQ for a request (or stored the request id for a deferred reply) '
+            'and nothing for a response; predicates over the element are folded under the abstract type, repeated predicates are correlated; the typed helper (handleIqRequests/handleIqType/processHandleIqResult/sendIqReply/checkIsIqRequest) is verified to mean "true => replied exactly once"; '
+            'both fall-backs answer get/set once with the request id/sender and stay silent for result/error. Found 9 managers swallowing requests or answering responses (13 concrete inputs replayed), all fixed.',
+            'What applications or third-party extensions do in their own handleStanza or in slots of emitted signals, and whether a reply\'s content is right, are outside the analysis.', 'DESIGN.md §2 C08'),
 }
 
 NOT_APPLICABLE_REASON = 'check not built yet in this session (see DESIGN.md); listed here until qxverif/rules/<id>.py exists'
